@@ -3,10 +3,12 @@
      _enqueue_actions (login / ping / client actions), _rewind_action, _disconnect, _connect, _reconnect,
      _time_to_reconnect (back-off table from GenConsts), _enqueue_ping, _handle_ready_device,
      one iteration of dev_post_poll's loop body (post_poll_one).
+   The fuel of _process_action's loop is computed from the queue handed to it (pa_fuel, Model/DeviceFuel.v): it always
+   suffices (Proofs/DeviceHang.v), so `Hang 2` is unreachable; the do..while round keeps its constant fuel 8 = nesting depth.
    The transport (connect / finish_connect / disconnect methods, the descriptor) is abstract: its answers are
    inputs of the pass.  No proofs in this file. *)
 From Coq Require Import List NArith ZArith Bool.
-From PM Require Import Base.Bytes Base.Outcome Base.Dec Gen.GenConsts Gen.GenCbuf Model.ScriptAst Model.Enqueue Model.Script.
+From PM Require Import Base.Bytes Base.Outcome Base.Dec Gen.GenConsts Gen.GenCbuf Model.ScriptAst Model.Enqueue Model.Script Model.DeviceFuel.
 Import ListNotations.
 Local Open Scope Z_scope.
 
@@ -83,6 +85,11 @@ Definition complete (d : device) (a : action) : list ev :=
 
 Definition backoff (rc : Z) : Z :=       (* microseconds to wait after the rc-th attempt, rc >= 1 *)
   nth (Z.to_nat (rc - 1)) backoff_table (last backoff_table 0).
+
+(* the potential of the queue (Model/DeviceFuel.v) with P := the number of plugs of the device, and the fuel process_action gets:
+   every iteration of _process_action's loop that does not leave it lowers psi by at least one *)
+Definition psi (d : device) : nat := Psi_l (length (sd_plugs (dv d))) (dv_acts d).
+Definition pa_fuel (d : device) : nat := S (S (psi d)).
 
 Section Dev.
   Variable rmatch : text -> text -> option pmatch.
@@ -291,7 +298,7 @@ Section Dev.
       match r1 with
       | Ok (d2, e2, tmo2, pl) =>
         let '(d3, tmo3) := if connected d2 then enqueue_ping now d2 tmo2 else (d2, tmo2) in
-        match process_action (Nat.mul 64 64) now d3 store tmo3 pl (e1 ++ e2) with
+        match process_action (pa_fuel d3) now d3 store tmo3 pl (e1 ++ e2) with
         | Ok (d4, store4, tmo4, _, evs) => Ok (d4, store4, tmo4, evs)
         | Exit c s => Exit c s | Abort s => Abort s | MemErr s => MemErr s | Hang s => Hang s
         end
